@@ -43,23 +43,29 @@ PT_HDR = "The current values for each jaxtyping PyTree structure annotation are 
 
 
 def parse_bindings(text):
-    axes, structs, mode = {}, {}, None
+    """-> (axis lines, structure lines) as sorted LISTS of 'name=value' strings: a single axis 'foo' and a variadic axis
+    '*foo' are different bindings that print under the same name, so dictionaries keyed by name would lose one."""
+    axes, structs, mode = [], [], None
     for ln in text.splitlines():
         if ln.startswith(AX_HDR):
             mode = "ax"
         elif ln.startswith(PT_HDR):
             mode = "pt"
         elif mode and "=" in ln:
-            k, v = ln.split("=", 1)
-            (axes if mode == "ax" else structs)[k] = v
-    return axes, structs
+            (axes if mode == "ax" else structs).append(ln.strip())
+    return sorted(axes), sorted(structs)
 
 
 def gen(seed, tier="quick"):
     r = rng(seed, "program")
     mode = r.choice(("ill", "ill", "ill", "misuse"))
-    fam = c02.gen_family(r, sym_ok=True, ill_bias=1.0 if mode == "ill" else 0.0)
+    fam = c02.gen_family(r, sym_ok=True, ill_bias=1.0 if mode == "ill" else 0.0,
+                         var_names=("v", "a") if r.random() < 0.5 else ("v",))  # '*a' next to 'a': both must be listed
     fam.pop("vals2", None)  # C13 uses one value set per family
+    if r.random() < 0.15:
+        for v in fam["vals"]:
+            if v["t"] == "duck" and r.random() < 0.5:
+                v["badrepr"] = True  # an argument / return value whose __repr__ raises: the message must still be a TypeCheckError
     extra = None
     if r.random() < 0.35:
         extra = r.choice(("tree", "union"))
@@ -68,6 +74,9 @@ def gen(seed, tier="quick"):
     scn["property"] = PID
     scn["mode"] = mode
     scn["stack_switch"] = r.random() < 0.5
+    if r.random() < 0.2:
+        # a displayed value whose __repr__ raises while the message is being formatted (duck arrays have a faultable repr)
+        scn["faults"] = [{"site": "repr", "k": r.randrange(1, 6), "exc": r.choice(("RuntimeError", "AttributeError" if False else "ValueError"))}]
     names = [p["name"] for p in fam["params"]]
     if extra:
         # extend every sibling with one more parameter
@@ -219,8 +228,10 @@ class Observer:
         got_ax, got_pt = parse_bindings(msg)
         obs_ax, obs_pt = parse_bindings(last["text"])
         if got_ax != obs_ax or got_pt != obs_pt:
-            missing = sorted(set(obs_ax.items()) - set(got_ax.items())) + sorted(set(obs_pt) - set(got_pt))
-            extra = sorted(set(got_ax.items()) - set(obs_ax.items())) + sorted(set(got_pt) - set(obs_pt))
+            missing = [x for x in obs_ax + obs_pt if x not in got_ax + got_pt]
+            extra = [x for x in got_ax + got_pt if x not in obs_ax + obs_pt]
+            if not missing and not extra:  # same lines, different multiplicity
+                missing = [x for x in set(obs_ax + obs_pt) if (obs_ax + obs_pt).count(x) > (got_ax + got_pt).count(x)]
             self._v("message-bindings", dict(base, what="binding lines of the message differ from the bindings in force at the failure instant",
                                              message_lists=[got_ax, got_pt], in_force=[obs_ax, obs_pt], missing=missing,
                                              not_in_force=extra, stage=stage),
@@ -239,8 +250,9 @@ class Observer:
                 if spec is None:
                     self._v("message-blame", dict(base, what="blamed parameter is not annotated", blamed=blamed))
                 elif spec["k"] == "arr":
-                    ctx = model.Ctx({k: int(v) for k, v in obs_ax.items() if _is_int(v)},
-                                    {k: (True, eval(v)) for k, v in obs_ax.items() if v.startswith("(")}, {}, {"k": 2})
+                    kv = [x.split("=", 1) for x in obs_ax]
+                    ctx = model.Ctx({k: int(v) for k, v in kv if _is_int(v)},
+                                    {k: (True, eval(v)) for k, v in kv if v.startswith("(")}, {}, {"k": 2})
                     outs, _ = model.match_array(spec, op["args"][i], ctx)
                     # broadcast flag is not printed: re-evaluate with the other flag before complaining
                     ctx2 = model.Ctx(ctx.axes, {k: (False, sh) for k, (b, sh) in ctx.variadics.items()}, {}, {"k": 2})
